@@ -170,6 +170,9 @@ def main(argv):
         for i, rc, tail in dead:
             inconclusive.append('shard %d ended with %r' % (i, rc))
             sys.stderr.write('--- shard %d (%r) ---\n%s\n' % (i, rc, tail))
+    for k, v in sorted(stats.counters.items()):
+        if k.startswith('inconclusive:') and v:
+            inconclusive.append('%s x%d' % (k[len('inconclusive:'):], v))
     if stats.monitor_evals == 0:
         inconclusive.append('the deciding monitor compared nothing')
     covsum = common.coverage_summary(stats.coverage)
